@@ -285,7 +285,9 @@ def typed_name(text: str, toks: list[Tok], drop_default: bool = True) -> list[st
 
 
 def empty_skel(kind="none") -> dict:
-    return {"kind": kind, "name": "", "scope": "", "mods": [], "fields": [], "ctor": [], "methods": [], "items": [], "codes": []}
+    # fmods: the modifier words in front of every field, one entry per field ("final", ""); [] where the target does not record them.
+    # codes: [{name, fields, ctor, fmods, methods}] (fmods / methods = modifiers and accessors of the fields of an error code)
+    return {"kind": kind, "name": "", "scope": "", "mods": [], "fields": [], "ctor": [], "methods": [], "items": [], "codes": [], "fmods": []}
 
 
 # --------------------------------------------------------------------------------------------------------
@@ -547,7 +549,10 @@ def java_skel(text: str) -> dict:
             ctors = sorted(n["ctors"], key=lambda c: len(c["params"]))
             if len(ctors) != 2 or ctors[1]["params"][:-1] != ctors[0]["params"] or ctors[1]["params"][-1] != ["String", "message"]:
                 raise ExtractError("error code class: constructors (params) and (params, String message) expected")
-            sk["codes"].append({"name": n["simple"], "fields": [[f["type"], f["name"]] for f in n["fields"]], "ctor": ctors[0]["params"]})
+            sk["codes"].append({"name": n["simple"], "fields": [[f["type"], f["name"]] for f in n["fields"]], "ctor": ctors[0]["params"],
+                                "fmods": [" ".join(f["mods"]) for f in n["fields"]],
+                                "methods": [{"pre": [x for x in m["mods"] if x in ("public", "static", "abstract")], "ret": m["ret"], "name": m["name"],
+                                             "params": m["params"], "post": m["throws"]} for m in n["methods"]]})
         return sk
     if "abstract" in cls["mods"] and not cls["fields"]:
         sk.update(kind="class", mods=cmods)
@@ -559,6 +564,7 @@ def java_skel(text: str) -> dict:
     sk.update(kind="struct", mods=cmods)
     strip_final = lambda ty: ty
     sk["fields"] = [[f["type"], f["name"]] for f in cls["fields"]]
+    sk["fmods"] = [" ".join(f["mods"]) for f in cls["fields"]]
     if len(cls["ctors"]) != 1:
         raise ExtractError("record class: exactly one constructor expected")
     sk["ctor"] = cls["ctors"][0]["params"]
